@@ -54,15 +54,16 @@ def generate(u, repo=None, canary=None):
     raw, ctx = build_raw(u, repo)
     ops = load_unit_ops(u)
     head, body = split_shim(raw)
+    guessed = []
     try:
-        text, inserted = apply_overlay(body, ops)
+        text, inserted = apply_overlay(body, ops, guessed)
     except (AnchorError, LexError) as e:
         raise Undecided(str(e))
     if not verify_insert_only(body, text, inserted, ops):
         raise Undecided('internal: generated text minus insertions differs from the extracted text')
     n = len(head)
     inserted = [(s + n, e + n, k) for s, e, k in inserted]
-    return dict(text=head + text, inserted=inserted, raw=raw, ctx=ctx, ops=ops)
+    return dict(text=head + text, inserted=inserted, raw=raw, ctx=ctx, ops=ops, guessed=guessed)
 
 
 def split_shim(text):
